@@ -1,1 +1,165 @@
-/- C19 — property theorems (to be written) -/
+/-
+  C19 — intersection and merge cost models count what the hardware idiom would do.
+  Property theorems only; helper lemmas live in FtProofs/Lemmas/{Intersect,Compute}.lean.
+
+  Vocabulary (FtModel/Intersect.lean): a `FiberIn` is one intersected fiber pair as the loop
+  nest presents it (iteration stamps `oi` and coordinates `pre` of the outer loop ranks, the
+  presented coordinate lists `a`, `b`); `batchesOf n groups` are the rows that successive
+  `Metrics.consumeTrace` calls return when the two `intersect_i` traces of `a & b` are
+  consumed after every group of consecutive fibers (header with the first); `tfTotal` /
+  `saTotal` / `lfTotal` feed them to a fresh Two-Finger / Skip-Ahead / Leader-Follower
+  intersector (`none` = the call raises) and read `getNumIntersects()`.
+-/
+import FtProofs.Lemmas.Intersect
+set_option linter.unusedSectionVars false
+set_option linter.unusedSimpArgs false
+set_option linter.unusedVariables false
+namespace Ft
+
+/-! ## Two-finger and skip-ahead -/
+
+/-- **Two-finger, any batching (partial).**  Whatever the grouping of the fibers into
+    `addTraces` calls, the total is the number of comparison steps of a two-finger merge of
+    each fiber's two coordinate lists (before either is exhausted), summed over the fibers —
+    PROVIDED that inside every call the outer-loop points are pairwise distinct and every
+    fiber that is followed by another one in the same call is `clean` (not exactly one
+    operand empty, and its merge does not end on a match that exhausts exactly one operand).
+    Without the last proviso the statement is false for the code as it is
+    (`oneShot_counterexample`). -/
+theorem twoFinger_batched_partial (n : Nat) (groups : List (List FiberIn))
+    (hshape : ∀ g ∈ groups, ∀ f ∈ g, f.oi.length + 1 = n ∧ f.pre.length + 1 = n)
+    (hdist : ∀ g ∈ groups, distinctPre g = true)
+    (hclean : ∀ g ∈ groups, groupClean g = true) :
+    tfTotal (batchesOf n groups) = some (tfSpecAll groups.flatten : Int) :=
+  tfTotal_batches n groups (fun g hg => ⟨hshape g hg, hdist g hg, hclean g hg⟩)
+
+/-- **Skip-ahead, any batching (partial)**: maximal same-side runs plus matches of every
+    fiber's merge, under the same provisos. -/
+theorem skipAhead_batched_partial (n : Nat) (groups : List (List FiberIn))
+    (hshape : ∀ g ∈ groups, ∀ f ∈ g, f.oi.length + 1 = n ∧ f.pre.length + 1 = n)
+    (hdist : ∀ g ∈ groups, distinctPre g = true)
+    (hclean : ∀ g ∈ groups, groupClean g = true) :
+    saTotal (batchesOf n groups) = some (saSpecAll groups.flatten : Int) :=
+  saTotal_batches n groups (fun g hg => ⟨hshape g hg, hdist g hg, hclean g hg⟩)
+
+theorem singletons_ok (n : Nat) (fs : List FiberIn)
+    (hshape : ∀ f ∈ fs, f.oi.length + 1 = n ∧ f.pre.length + 1 = n) :
+    GroupsOk n (fs.map (fun f => [f])) := by
+  intro g hg
+  obtain ⟨f, hf, rfl⟩ := List.mem_map.1 hg
+  refine ⟨?_, rfl, rfl⟩
+  intro f' hf'
+  rw [List.mem_singleton.1 hf']
+  exact hshape f hf
+
+theorem flatten_singletons (fs : List FiberIn) : (fs.map (fun f => [f])).flatten = fs := by
+  induction fs with
+  | nil => rfl
+  | cons f r ih => simp [ih]
+
+/-- **Two-finger, fed fiber by fiber** (no proviso: empty operands, disjoint, interleaved,
+    identical lists, any number of fibers, equal or different outer points): the total is
+    the number of merge comparison steps. -/
+theorem twoFinger_spec (n : Nat) (fs : List FiberIn)
+    (hshape : ∀ f ∈ fs, f.oi.length + 1 = n ∧ f.pre.length + 1 = n) :
+    tfTotal (batchesOf n (fs.map (fun f => [f]))) = some (tfSpecAll fs : Int) := by
+  have := tfTotal_batches n _ (singletons_ok n fs hshape)
+  rwa [flatten_singletons] at this
+
+/-- **Skip-ahead, fed fiber by fiber**: maximal same-side runs plus matches. -/
+theorem skipAhead_spec (n : Nat) (fs : List FiberIn)
+    (hshape : ∀ f ∈ fs, f.oi.length + 1 = n ∧ f.pre.length + 1 = n) :
+    saTotal (batchesOf n (fs.map (fun f => [f]))) = some (saSpecAll fs : Int) := by
+  have := saTotal_batches n _ (singletons_ok n fs hshape)
+  rwa [flatten_singletons] at this
+
+/-! ## Leader-follower -/
+
+/-- **Leader-follower**: fed the leader trace of leader-follower intersections, in any
+    batching, the total is the number of elements the leader presented. -/
+theorem leaderFollower_spec (n : Nat) (groups : List (List FiberIn)) :
+    lfTotal (leaderBatchesOf n groups) = (lfSpecAll groups.flatten : Int) :=
+  lfTotal_leader n groups
+
+/-- … and for any trace at all (e.g. an `intersect_i` trace of `a & b`, as the test-suite
+    feeds it) the total is the number of rows behind the header, however the rows are
+    distributed over the calls. -/
+theorem leaderFollower_rows (b : List TRow) (r : List (List TRow)) :
+    lfTotal (b :: r) = (((b :: r).map List.length).sum : Nat) - 1 :=
+  lfTotal_cons b r
+
+/-! ## Batching -/
+
+/-- **Batching is irrelevant (partial)**: two groupings of the same fibers that both satisfy
+    the provisos of `twoFinger_batched_partial` give the same totals; for the
+    leader-follower model any two groupings do. -/
+theorem batching_irrelevant_partial (n : Nat) (g1 g2 : List (List FiberIn))
+    (hsame : g1.flatten = g2.flatten)
+    (h1 : GroupsOk n g1) (h2 : GroupsOk n g2) :
+    tfTotal (batchesOf n g1) = tfTotal (batchesOf n g2) ∧
+    saTotal (batchesOf n g1) = saTotal (batchesOf n g2) ∧
+    lfTotal (leaderBatchesOf n g1) = lfTotal (leaderBatchesOf n g2) := by
+  refine ⟨?_, ?_, ?_⟩
+  · rw [tfTotal_batches n g1 h1, tfTotal_batches n g2 h2, hsame]
+  · rw [saTotal_batches n g1 h1, saTotal_batches n g2 h2, hsame]
+  · rw [lfTotal_leader, lfTotal_leader, hsame]
+
+/-! ## The unrestricted claim fails for the code as it is (DESIGN §7 #14) -/
+
+/-- two fibers under one outer rank (points 0 and 1), each `a = [1]`, `b = [1, 2]`: the merge of
+    each ends with a match that exhausts `a` only -/
+def wit : List FiberIn := [⟨[0], [0], [1], [1, 2]⟩, ⟨[1], [1], [1], [1, 2]⟩]
+
+/-- Fed in one shot both models report 3, fed fiber by fiber they report 2 = the merge
+    steps: the totals DO depend on the batching, and no comparison should span two fibers. -/
+theorem oneShot_counterexample :
+    (∀ f ∈ wit, f.oi.length + 1 = 2 ∧ f.pre.length + 1 = 2) ∧ distinctPre wit = true ∧
+    tfSpecAll wit = 2 ∧ saSpecAll wit = 2 ∧
+    tfTotal (batchesOf 2 (wit.map (fun f => [f]))) = some 2 ∧
+    saTotal (batchesOf 2 (wit.map (fun f => [f]))) = some 2 ∧
+    tfTotal (batchesOf 2 [wit]) = some 3 ∧
+    saTotal (batchesOf 2 [wit]) = some 3 := by
+  refine ⟨by simp [wit], by simp [wit, distinctPre], ?_, ?_, ?_, ?_, ?_, ?_⟩
+  · simp [wit, tfSpecAll, tfSpec, mergeLabels]
+  · simp [wit, saSpecAll, saSpec, mergeLabels, sameSideRuns]
+  · simp [wit, tfTotal, batchesOf, groupRows, FiberIn.rows, andUses, mkRows, feed2, tfAdd, startPts,
+      TRow.point, TRow.len, tfLoop, lexLt, endOf, List.zipIdx]
+  · simp [wit, saTotal, batchesOf, groupRows, FiberIn.rows, andUses, mkRows, feed2, saAdd, startPts,
+      TRow.point, TRow.len, saLoop, lexLt, endOf, fiberOf, List.zipIdx]
+  · simp [wit, tfTotal, batchesOf, groupRows, FiberIn.rows, andUses, mkRows, feed2, tfAdd, startPts,
+      TRow.point, TRow.len, tfLoop, lexLt, endOf, List.zipIdx]
+  · simp [wit, saTotal, batchesOf, groupRows, FiberIn.rows, andUses, mkRows, feed2, saAdd, startPts,
+      TRow.point, TRow.len, saLoop, lexLt, endOf, fiberOf, List.zipIdx]
+
+/-- a fiber with exactly one empty operand in front of another one: the call raises -/
+theorem oneShot_assertion_counterexample :
+    tfTotal (batchesOf 2 [[⟨[0], [0], [], [2]⟩, ⟨[1], [2], [1], [1]⟩]]) = none := by
+  simp [tfTotal, batchesOf, groupRows, FiberIn.rows, andUses, mkRows, feed2, tfAdd, startPts,
+    TRow.point, TRow.len, List.zipIdx]
+
+/-! ## Non-vacuity: the hypotheses hold for non-trivial values -/
+
+/-- a mixed batching: a clean fiber (ends on a match exhausting both operands, with a run of
+    two on the left) followed in the same call by an unclean last one, then a call of its own -/
+def exGroups : List (List FiberIn) :=
+  [[⟨[0], [0], [1, 2, 5], [3, 5]⟩, ⟨[1], [4], [1], [1, 2]⟩], [⟨[2], [6], [], [7]⟩]]
+
+example : (∀ g ∈ exGroups, ∀ f ∈ g, f.oi.length + 1 = 2 ∧ f.pre.length + 1 = 2) ∧
+    (∀ g ∈ exGroups, distinctPre g = true) ∧ (∀ g ∈ exGroups, groupClean g = true) ∧
+    tfSpecAll exGroups.flatten = 5 ∧ saSpecAll exGroups.flatten = 4 := by
+  refine ⟨by simp [exGroups], by simp [exGroups, distinctPre], ?_, ?_, ?_⟩
+  · simp [exGroups, groupClean, clean, cleanEnd]
+  · simp [exGroups, tfSpecAll, tfSpec, mergeLabels]
+  · simp [exGroups, saSpecAll, saSpec, mergeLabels, sameSideRuns]
+
+example : lfSpecAll exGroups.flatten = 4 := by simp [exGroups, lfSpecAll]
+
+example : GroupsOk 2 exGroups ∧ GroupsOk 2 (exGroups.flatten.map (fun f => [f])) := by
+  refine ⟨?_, singletons_ok 2 _ (by simp [exGroups])⟩
+  intro g hg
+  simp only [exGroups, List.mem_cons, List.not_mem_nil, or_false] at hg
+  rcases hg with rfl | rfl
+  · exact ⟨by simp [ShapeOk], by simp [distinctPre], by simp [groupClean, clean, cleanEnd]⟩
+  · exact ⟨by simp [ShapeOk], by simp [distinctPre], by simp [groupClean]⟩
+
+end Ft
